@@ -89,6 +89,9 @@ func v17Pipeline(x *vexp.X, sc *v17Scenario) (*vhook.Sched, func()) {
 			panic("harness: Start failed: " + err.Error())
 		}
 		var ok bool
+		// two record-length changes in a row (the second one's "no change?" test reads what the first one set), back to 4/12
+		ctl.ConfigurePulseLengths(SizeObject{Nsamp: 14, Npre: 5}, &ok)
+		ctl.ConfigurePulseLengths(SizeObject{Nsamp: 12, Npre: 4}, &ok)
 		ctl.ConfigureTriggers(&FullTriggerState{ChannelIndices: []int{0}, TriggerState: TriggerState{EdgeTrigger: true, EdgeRising: true, EdgeLevel: 100}}, &ok)
 		ctl.AddGroupTriggerCoupling(GroupTriggerState{Connections: map[int][]int{0: {1}}}, &ok)
 		ctl.WriteControl(&WriteControlConfig{Request: "START", Path: env.dir, WriteLJH22: true, WriteLJH3: true}, &ok)
@@ -108,6 +111,8 @@ func v17Pipeline(x *vexp.X, sc *v17Scenario) (*vhook.Sched, func()) {
 		d := ""
 		ctl.SendAllStatus(&d, &ok)
 		ctl.WriteControl(&WriteControlConfig{Request: "STOP"}, &ok)
+		ctl.ConfigurePulseLengths(SizeObject{Nsamp: 16, Npre: 6}, &ok)
+		ctl.SendAllStatus(&d, &ok)
 		ctl.Stop(&d, &ok)
 	}
 	s := vhook.Run(x, vhook.Options{MaxSteps: 1500, Names: []string{"client"}, DelayBound: true}, client)
@@ -407,7 +412,7 @@ func TestVerifC17(t *testing.T) {
 	if r.Thorough() {
 		pb = 2
 	}
-	r.SetBound(fmt.Sprintf("race-detector build; all interleavings (all select alternatives) with at most %d preemptions (life cycle) / at most as many scheduling deviations of any kind (thread choice or select alternative) from the canonical schedule (delay bounding, pipeline) of: (pipeline) one client issuing trigger, group-trigger, write-control, raw-block, comment, state-label, send-all and stop requests against a running two-channel source with pulses, LJH2.2+LJH3 writing, group trigger, record/summary/status consumers; (life cycle) Start with two concurrent Stop callers; (Abaco pipeline) real Start/readerMainLoop/getNextBlock/distributeData/CoreLoop with a scripted packet producer (two groups, one lagging, one lost packet), clock thread and Stop; (Lancero pipeline) real StartRun/launchLanceroReader/getNextBlock/ConfigureMixFraction/distributeData/CoreLoop with a scripted card (2x2 geometry, 20 frames in 5 reads, external-trigger bits), clock thread, one mix request and Stop", pb))
+	r.SetBound(fmt.Sprintf("race-detector build; all interleavings (all select alternatives) with at most %d preemptions (life cycle) / at most as many scheduling deviations of any kind (thread choice or select alternative) from the canonical schedule (delay bounding, pipeline) of: (pipeline) one client issuing record-length, trigger, group-trigger, write-control, raw-block, comment, state-label, send-all and stop requests against a running two-channel source with pulses, LJH2.2+LJH3 writing, group trigger, record/summary/status consumers; (life cycle) Start with two concurrent Stop callers; (Abaco pipeline) real Start/readerMainLoop/getNextBlock/distributeData/CoreLoop with a scripted packet producer (two groups, one lagging, one lost packet), clock thread and Stop; (Lancero pipeline) real StartRun/launchLanceroReader/getNextBlock/ConfigureMixFraction/distributeData/CoreLoop with a scripted card (2x2 geometry, 20 frames in 5 reads, external-trigger bits), clock thread, one mix request and Stop", pb))
 	scs := []*v17Scenario{
 		{name: "pipeline", run: v17Pipeline, bound: pb}, // delay-bounded (see vhook.Options.DelayBound)
 		{name: "lifecycle", run: v17LifeCycle, bound: pb},
